@@ -533,3 +533,187 @@ theorem legal_single_equals (lead gap v : Str) (hl : isWs lead) (hg : isWs gap) 
   simp [isLegalRelativeVersion, hnr, hbad]
 
 end EupsModel.VersionCmp
+
+namespace EupsModel.VersionCmp
+open EupsModel
+
+/-! ## malformed tails: what follows a chain -/
+
+/-- the tokeniser on a chain followed by any text `rest` whose tokens (after a version that is being
+collected) are `T` -/
+theorem tokGo_links_tail (rest : Str) (T : List Str) (hT : ∀ v, wfName v → tokGo 0 v.reverse rest = v :: T)
+    (v : Str) (hv : wfName v) (ls : List Link) (hls : ∀ l ∈ ls, l.Wf) :
+    tokGo 0 v.reverse (renderLinks ls ++ rest) = v :: (linkToks ls ++ T) := by
+  induction ls generalizing v with
+  | nil => simp only [renderLinks, List.nil_append, linkToks]; exact hT v hv
+  | cons l ls ih =>
+    obtain ⟨hpre, hpost, hterm, hword⟩ := hls l (by simp)
+    have hrest := ih l.term.name hterm.1 (fun x hx => hls x (by simp [hx]))
+    simp only [renderLinks, linkToks, List.append_assoc]
+    have hafter : tokGo 0 [] (l.post ++ (l.term.render ++ (renderLinks ls ++ rest))) =
+        l.term.opToks ++ l.term.name :: (linkToks ls ++ T) := by
+      rw [tokGo_ws_nil _ _ hpost, tokGo_term l.term hterm, hrest]
+    by_cases hb : l.conn = .barbar
+    · have hstr : l.conn.str = sBarBar := by rw [hb]; rfl
+      rw [hstr]
+      by_cases hp : l.pre = []
+      · rw [hp, List.nil_append, tokGo_opG sBarBar _ _ (Or.inr rfl) (by intro h; rcases h with h | h <;> cases h)]
+        rw [flush_name hv, hafter]; simp
+      · rw [tokGo_ws_cur _ _ _ hpre hp, flush_name hv,
+          tokGo_opG sBarBar _ _ (Or.inr rfl) (by intro h; rcases h with h | h <;> cases h), hafter]
+        simp [flush]
+    · obtain ⟨hp, hq⟩ := hword hb
+      rw [tokGo_ws_cur _ _ _ hpre hp, flush_name hv, tokGo_word _ _ _ (conn_word l.conn hb)]
+      simp only [List.append_nil]
+      rw [tokGo_ws_cur _ _ _ hpost hq]
+      have hfl : flush l.conn.str.reverse = [l.conn.str] := by
+        cases hc : l.conn <;> simp [flush, Conn.str, sOr, sAnd, sAmpAmp, sBarBar]
+      rw [hfl, tokGo_term l.term hterm, hrest]
+      simp
+
+theorem tokenize_renderG_tail (lead : Str) (t : GTerm) (ls : List Link) (rest : Str) (T : List Str)
+    (hlead : isWs lead) (ht : t.Wf) (hls : ∀ l ∈ ls, l.Wf)
+    (hT : ∀ v, wfName v → tokGo 0 v.reverse rest = v :: T) :
+    tokenize (renderG lead t ls rest) = t.opToks ++ t.name :: (linkToks ls ++ T) := by
+  simp only [tokenize, renderG]
+  rw [tokGo_ws_nil _ _ hlead, tokGo_term t ht, tokGo_links_tail rest T hT t.name ht.1 ls hls]
+
+/-- the loop through the links, then whatever the rest of the tokens makes of the state reached -/
+def evalLinksK (holds : GTerm → Bool) (k : Option LogOp → Bool → Except Err Bool) :
+    Option LogOp → Bool → List Link → Except Err Bool
+  | lg, v, [] => k lg v
+  | _, v, l :: ls =>
+    match l.conn.op with
+    | .or => if v || holds l.term then .ok true else evalLinksK holds k (some .or) false ls
+    | .and => if v then evalLinksK holds k (some .and) (holds l.term) ls else .ok false
+
+theorem matchLoop_linksK (cmp : Str → Str → Except Err Int) (x : Str) (ls : List Link) (tail : List Str)
+    (hls : ∀ l ∈ ls, l.term.Wf ∧ ∃ r, cmp x l.term.name = .ok r) (lg : Option LogOp) (b : Bool) :
+    matchLoop cmp x (linkToks ls ++ tail) lg (some b) =
+      evalLinksK (fun t => termHolds cmp x t.term) (fun lg v => matchLoop cmp x tail lg (some v)) lg b ls := by
+  induction ls generalizing lg b with
+  | nil => simp [linkToks, evalLinksK]
+  | cons l ls ih =>
+    obtain ⟨hwf, r, hr⟩ := hls l (by simp)
+    have hrest : ∀ l' ∈ ls, l'.term.Wf ∧ ∃ r, cmp x l'.term.name = .ok r := fun y hy => hls y (by simp [hy])
+    simp only [linkToks, evalLinksK, List.cons_append, List.append_assoc]
+    rw [matchLoop_conn]
+    cases hc : l.conn.op with
+    | or =>
+      simp only
+      rw [matchLoop_term cmp x l.term hwf _ r hr (some .or) (some b) (by simp)]
+      simp only [Option.some.injEq, beq_iff_eq]
+      by_cases h : (b || termHolds cmp x l.term.term) = true
+      · have : ((some b == some true) || termHolds cmp x l.term.term) = true := by cases b <;> simp_all
+        simp [this, h]
+      · have : ((some b == some true) || termHolds cmp x l.term.term) = false := by cases b <;> simp_all
+        simp only [this, Bool.false_eq_true, if_false, h]
+        exact ih hrest _ _
+    | and =>
+      simp only
+      cases b with
+      | false => simp
+      | true =>
+        simp only [if_true]
+        rw [matchLoop_term cmp x l.term hwf _ r hr (some .and) (some true) (by simp)]
+        simp only [beq_self_eq_true, Bool.true_and]
+        exact ih hrest _ _
+
+theorem evalLinksK_or (holds : GTerm → Bool) (k : Option LogOp → Bool → Except Err Bool) (lg : Option LogOp) (v : Bool)
+    (os : List Link) (hos : ∀ l ∈ os, l.isOr) :
+    evalLinksK holds k lg v os =
+      if os = [] then k lg v
+      else if v || os.any (fun l => holds l.term) then .ok true else k (some .or) false := by
+  induction os generalizing lg v with
+  | nil => simp [evalLinksK]
+  | cons l ls ih =>
+    have h : l.conn.op = .or := hos l (by simp)
+    simp only [evalLinksK, h, List.any_cons, reduceCtorEq, if_false]
+    rw [ih (some .or) false (fun y hy => hos y (by simp [hy]))]
+    by_cases hl : ls = []
+    · subst hl
+      by_cases hh : holds l.term = true
+      · cases v <;> simp [hh]
+      · cases v <;> simp [hh]
+    · by_cases hh : holds l.term = true
+      · cases v <;> simp [hh, hl]
+      · cases v <;> simp [hh, hl]
+
+/-- a term where a logical operator is expected ("Expected logical operator || or &&"): skipped, not even compared -/
+theorem matchLoop_term_skip (cmp : Str → Str → Except Err Int) (x : Str) (t : GTerm) (ht : t.Wf) (rest : List Str) (b : Bool) :
+    matchLoop cmp x (t.opToks ++ t.name :: rest) none (some b) = matchLoop cmp x rest none (some b) := by
+  obtain ⟨hn, _, ho, hbare⟩ := ht
+  cases hop : t.op with
+  | some o =>
+    have hro : hasRelop o = true := hasRelop_relop (ho o hop)
+    simp only [GTerm.opToks, hop, List.cons_append, List.nil_append]
+    rw [matchLoop]
+    simp [hro]
+  | none =>
+    obtain ⟨hna, hno⟩ := hbare hop
+    simp only [GTerm.opToks, hop, List.nil_append]
+    rw [matchLoop.eq_def]
+    have h1 : hasRelop t.name = false := hasRelop_name hn.2
+    have h2 : plainTok t.name = true := plainTok_name hn
+    have h3 : (t.name != sAnd) = true := by simpa using hna
+    have h4 : (t.name != sOr) = true := by simpa using hno
+    simp [h1, h2, h3, h4]
+
+/-- a relational operator that is the last token -/
+theorem matchLoop_dangling (cmp : Str → Str → Except Err Int) (x op : Str) (hop : isRelop op) (lg : Option LogOp) (v : Option Bool) :
+    matchLoop cmp x [op] lg v = .error .indexError := by
+  rw [matchLoop]; simp [hasRelop_relop hop]
+
+/-- a token that is neither a term nor an operator ("Unexpected operator"): the loop stops with the value reached -/
+theorem matchLoop_junk (cmp : Str → Str → Except Err Int) (x junk : Str) (rest : List Str)
+    (h1 : hasRelop junk = false) (h2 : plainTok junk = false) (h3 : junk ≠ sBarBar) (h4 : junk ≠ sAmpAmp)
+    (lg : Option LogOp) (b : Bool) :
+    matchLoop cmp x (junk :: rest) lg (some b) = .ok b := by
+  rw [matchLoop.eq_def]
+  have h5 : junk ≠ sOr := by intro e; subst e; simp [plainTok, sOr, Str.isAlnum, Str.isAlpha, Str.isLower, Str.isUpper, Str.isDigit] at h2
+  have h6 : junk ≠ sAnd := by intro e; subst e; simp [plainTok, sAnd, Str.isAlnum, Str.isAlpha, Str.isLower, Str.isUpper, Str.isDigit] at h2
+  cases b <;> simp [h1, h2, h3, h4, h5, h6]
+
+/-- tokens of `blanks op blanks` after a version -/
+theorem tokGo_dangling (trail op trail2 : Str) (ht : isWs trail) (hop : isRelop op) (ht2 : isWs trail2)
+    (v : Str) (hv : wfName v) : tokGo 0 v.reverse (trail ++ (op ++ trail2)) = v :: [op] := by
+  have hnext : (op = opLt ∨ op = opGt) → trail2.head? ≠ some 61 := by
+    intro _
+    cases trail2 with
+    | nil => simp
+    | cons c cs =>
+      have := ht2 c (by simp)
+      simp only [List.head?_cons, ne_eq, Option.some.injEq]
+      intro e; subst e; simp [Str.isSpace] at this
+  have hend : tokGo 0 [] trail2 = [] := by
+    have := tokGo_ws_nil trail2 [] ht2
+    simpa [tokGo] using this
+  by_cases hp : trail = []
+  · subst hp
+    rw [List.nil_append, tokGo_opG op _ _ (Or.inl hop) hnext, flush_name hv, hend]; rfl
+  · rw [tokGo_ws_cur _ _ _ ht hp, flush_name hv, tokGo_opG op _ _ (Or.inl hop) hnext, hend]; simp [flush]
+
+/-- tokens of `blanks junk blanks more` after a version -/
+theorem tokGo_junk (w1 junk w2 more : Str) (h1 : isWs w1) (hne1 : w1 ≠ []) (hj : ∀ c ∈ junk, wordChar c) (hjne : junk ≠ [])
+    (h2 : isWs w2) (hne2 : w2 ≠ []) (v : Str) (hv : wfName v) :
+    tokGo 0 v.reverse (w1 ++ (junk ++ (w2 ++ more))) = v :: (junk :: tokenize more) := by
+  rw [tokGo_ws_cur _ _ _ h1 hne1, flush_name hv, tokGo_word _ _ _ hj]
+  simp only [List.append_nil]
+  rw [tokGo_ws_cur _ _ _ h2 hne2]
+  have : flush junk.reverse = [junk] := by
+    have hr : junk.reverse ≠ [] := by simpa using hjne
+    cases h : junk.reverse with
+    | nil => exact absurd h hr
+    | cons a as => simp only [flush, List.isEmpty_cons, Bool.false_eq_true, if_false]; rw [← h]; simp
+  rw [this]; simp [tokenize]
+
+/-- tokens of `blanks term blanks` after a version -/
+theorem tokGo_juxt (w1 : Str) (t2 : GTerm) (trail : Str) (h1 : isWs w1) (hne1 : w1 ≠ []) (ht2 : t2.Wf) (htr : isWs trail)
+    (v : Str) (hv : wfName v) :
+    tokGo 0 v.reverse (w1 ++ (t2.render ++ trail)) = v :: (t2.opToks ++ [t2.name]) := by
+  rw [tokGo_ws_cur _ _ _ h1 hne1, flush_name hv, tokGo_term t2 ht2]
+  have := tokGo_links t2.name ht2.1 [] (by simp) trail htr
+  simp only [renderLinks, List.nil_append, linkToks] at this
+  rw [this]; simp
+
+end EupsModel.VersionCmp
